@@ -29,7 +29,7 @@ Do NOT make a change that ordinary use would expose at once (e.g. breaking every
 Deliver, in {out}/ :
   - patch.diff  : output of `git -C {wt} diff` (the change only; no new test files inside the patch)
   - demo.py     : a small self-contained program that exits non-zero (or fails an assert) WITH the change applied and
-                  exits 0 WITHOUT it (verify both: use `git -C {wt} stash` / `stash pop` or `git apply -R`),
+                  exits 0 WITHOUT it (verify both with `git -C {wt} diff > p.diff; git -C {wt} apply -R p.diff` ... `git -C {wt} apply p.diff`; NEVER use `git stash`: the stash is shared between worktrees),
                   run as `cd <tree> && /venv/bin/python {out}/demo.py`
   - note.md     : 5-10 lines: what you changed, why it breaks the property, what exactly is needed for it to manifest,
                   and the pytest summary line you observed with the change applied.
